@@ -3,6 +3,7 @@ package drv
 import (
 	"errors"
 	"fmt"
+	"github.com/truora/minidyn/interpreter"
 	"sort"
 	"strings"
 
@@ -370,6 +371,15 @@ func (d *V1) Apply(op model.Op) (res model.Result) {
 			return fail(err)
 		}
 		return model.Result{Desc: v1Desc(out.TableDescription)}
+	case "NativeGet":
+		_ = c.GetNativeInterpreter()
+		return model.Result{}
+	case "NativeSet":
+		c.SetInterpreter(interpreter.NewNativeInterpreter())
+		return model.Result{}
+	case "NativeActivate":
+		c.ActivateNativeInterpreter()
+		return model.Result{}
 	case "ClearTable":
 		if err := v1client.ClearTable(c, op.Table); err != nil {
 			return fail(err)
